@@ -153,6 +153,7 @@ func ChildMain(dir, scriptPath string) int {
 		return 4
 	}
 	st.AutoGC = s.AutoGC
+	st.AutoSaveIndex = !s.NoAutoSave
 	out := ""
 	for _, o := range s.History {
 		mark(MarkOp)
